@@ -242,6 +242,11 @@ class RecordAnalyzer:
                 ln = self.length_of(s.value.generators[0].iter, st)
                 is_flag = isinstance(s.value.elt, (ast.Compare, ast.BoolOp, ast.UnaryOp))
                 st.env[name] = Vec(ln, trues=Len.sym(self.new_sym()) if is_flag else None)
+            elif isinstance(s.value, ast.ListComp) and len(s.value.generators) == 1 and self.length_of(s.value.generators[0].iter, st) is not None \
+                    and s.value.generators[0].ifs:
+                # a selection: one entry per element that passes the filter; its length is a fresh multiplicity (<= the source length)
+                is_flag = isinstance(s.value.elt, (ast.Compare, ast.BoolOp, ast.UnaryOp)) or (isinstance(s.value.elt, ast.Call) and dotted(s.value.elt.func) == "bool")
+                st.env[name] = Vec(Len.sym(self.new_sym()), trues=Len.sym(self.new_sym()) if is_flag else None)
             elif isinstance(s.value, ast.Call) and attr_tail(s.value) == "count" and isinstance(s.value.func.value, ast.Name) \
                     and isinstance(st.env.get(s.value.func.value.id), Vec) and s.value.args and isinstance(s.value.args[0], ast.Constant) and s.value.args[0].value is True \
                     and st.env[s.value.func.value.id].trues is not None:
